@@ -78,12 +78,39 @@ class Scoped(dict):
         return self.outer.get(key, default)
 
 
-MAPPING_KINDS = ["dict", "get-only", "scoped", "proxy", "chain"]
+class Lazy:
+    """A mapping that works out its values on demand and uses ZConfig's
+    own substitution for that (nested definitions expanded lazily): every
+    get() runs substitute() on another string first."""
+    calls = 0
+
+    def __init__(self, d):
+        self._d = d
+
+    def get(self, key, default=None):
+        v = self._d.get(key, default)
+        if not Lazy.busy:
+            Lazy.busy = True
+            try:
+                from ZConfig.substitution import substitute
+                Lazy.calls += 1
+                if substitute("pre-$$-${in}-$In.x", {"in": "NESTED"}) != \
+                        "pre-$-NESTED-NESTED.x":
+                    raise RuntimeError("nested substitute() broken")
+            finally:
+                Lazy.busy = False
+        return v
+
+
+Lazy.busy = False
+MAPPING_KINDS = ["dict", "get-only", "scoped", "proxy", "chain", "lazy"]
 
 
 def as_kind(mapping, kind):
     if kind == "get-only":
         return GetOnly(mapping)
+    if kind == "lazy":
+        return Lazy(mapping)
     if kind == "scoped":
         return Scoped(mapping)
     if kind == "proxy":
@@ -190,7 +217,23 @@ class EnvPatch:
         self.enames = enames
         self.env = env
 
+    count = 0
+
     def __enter__(self):
+        EnvPatch.count += 1
+        self.replaced = None
+        if EnvPatch.count % 4 == 0:
+            # the way test fixtures and sandboxes do it: os.environ itself
+            # is exchanged for another mapping for the duration
+            self.replaced = os.environ
+            new = dict(os.environ)
+            for n in self.enames:
+                if n in self.env:
+                    new[n] = self.env[n]
+                else:
+                    new.pop(n, None)
+            os.environ = new
+            return
         self.saved = {n: os.environ.get(n) for n in self.enames}
         for n in self.enames:
             if n in self.env:
@@ -199,6 +242,9 @@ class EnvPatch:
                 os.environ.pop(n, None)
 
     def __exit__(self, *a):
+        if self.replaced is not None:
+            os.environ = self.replaced
+            return
         for n, v in self.saved.items():
             if v is None:
                 os.environ.pop(n, None)
